@@ -12,6 +12,7 @@ harness runs the real parser on the excluded instances (evidence key `exemptions
 -/
 import PromVerif.Spec.OMRules
 import PromVerif.Lemmas.OMChecks
+import PromVerif.Lemmas.OMDoom
 import PromVerif.Lemmas.OMToy
 
 namespace PromVerif.Props.C15
@@ -101,13 +102,13 @@ theorem mem_runChecks_post (P : Params) (n : Str) (t : Option Str) (s : OSample)
     (he : isError c = true) : isError (postChecks P n t s) = true :=
   runChecks_isError_of_mem _ c hc he
 
-theorem info_names (n : Str) : familyNames n "info".toList = [n ++ "_info".toList] := by
+theorem info_names (n : Str) : familyNames n cs!"info" = [n ++ cs!"_info"] := by
   simp [familyNames, specSuffixes]
 
-theorem stateset_names (n : Str) : familyNames n "stateset".toList = [n] := by
+theorem stateset_names (n : Str) : familyNames n cs!"stateset" = [n] := by
   simp [familyNames, specSuffixes]
 
-theorem summary_names_self (n : Str) : n ∈ familyNames n "summary".toList := by
+theorem summary_names_self (n : Str) : n ∈ familyNames n cs!"summary" := by
   simp [familyNames, specSuffixes]
 
 /-- info values other than 1 are rejected — any family name, labels, position, lines before and after -/
@@ -116,8 +117,8 @@ theorem info_not_one (P : Params) (ls : List Line) (h : InfoNotOne P ls) : isErr
   refine block_of_InBlock P ls n _ (smp s) hb ?_
   intro st hh heof
   refine smp_fails P st n _ s hh heof (by rw [info_names, hname]; exact List.mem_singleton.mpr rfl) (Or.inr ?_)
-  refine mem_runChecks_post P n (some "info".toList) s (chkInfoValue P (some "info".toList) s) (by simp) ?_
-  have : chkInfoValue P (some "info".toList) s = raiseIfM (.ok (!P.eq v (.int 1))) := by
+  refine mem_runChecks_post P n (some cs!"info") s (chkInfoValue P (some cs!"info") s) (by simp) ?_
+  have : chkInfoValue P (some cs!"info") s = raiseIfM (.ok (!P.eq v (.int 1))) := by
     simp only [chkInfoValue, hv]; rfl
   rw [this, hne]; rfl
 
@@ -131,8 +132,8 @@ theorem stateset_bad_value (P : Params) (ls : List Line) (h : StatesetBadValue P
   refine block_of_InBlock P ls n _ (smp s) hb ?_
   intro st hh heof
   refine smp_fails P st n _ s hh heof (by rw [stateset_names, hname]; exact List.mem_singleton.mpr rfl) (Or.inr ?_)
-  refine mem_runChecks_post P n (some "stateset".toList) s (chkStatesetValue P (some "stateset".toList) s) (by simp) ?_
-  have : chkStatesetValue P (some "stateset".toList) s = raiseIf true := by
+  refine mem_runChecks_post P n (some cs!"stateset") s (chkStatesetValue P (some cs!"stateset") s) (by simp) ?_
+  have : chkStatesetValue P (some cs!"stateset") s = raiseIf true := by
     simp only [chkStatesetValue, hv, valueIn]
     have : statesetValues = [0, 1] := by decide
     simp [this, h0, h1]
@@ -154,8 +155,8 @@ theorem stateset_no_label (P : Params) (ls : List Line) (h : StatesetNoLabel ls)
   refine block_of_InBlock P ls n _ (smp s) hb ?_
   intro st hh heof
   refine smp_fails P st n _ s hh heof (by rw [stateset_names, hname]; exact List.mem_singleton.mpr rfl) (Or.inl ?_)
-  refine mem_runChecks_pre P n (some "stateset".toList) s (chkStatesetLabel n (some "stateset".toList) s) (by simp) ?_
-  have : chkStatesetLabel n (some "stateset".toList) s = raiseIf true := by
+  refine mem_runChecks_pre P n (some cs!"stateset") s (chkStatesetLabel n (some cs!"stateset") s) (by simp) ?_
+  have : chkStatesetLabel n (some cs!"stateset") s = raiseIf true := by
     simp only [chkStatesetLabel, labelsOrType, hl, dictHas_false_of lbls n hno]
     rfl
   rw [this]; rfl
@@ -201,13 +202,13 @@ theorem quantile_out_of_range (P : Params) (ls : List Line) (h : QuantileOutOfRa
   refine block_of_InBlock P ls n _ (smp s) hb ?_
   intro st hh heof
   refine smp_fails P st n _ s hh heof (by rw [hname]; exact summary_names_self n) (Or.inl ?_)
-  refine mem_runChecks_pre P n (some "summary".toList) s (chkQuantile P n (some "summary".toList) s) (by simp) ?_
-  have e1 : (some "summary".toList == some tSummary && n == s.name) = true := by
+  refine mem_runChecks_pre P n (some cs!"summary") s (chkQuantile P n (some cs!"summary") s) (by simp) ?_
+  have e1 : (some cs!"summary" == some tSummary && n == s.name) = true := by
     rw [hname]; simp; decide
   simp only [chkQuantile, e1, if_true, labelsOrAttr, hl]
-  have e2 : sQuantile = "quantile".toList := rfl
+  have e2 : sQuantile = cs!"quantile" := rfl
   rw [e2]
-  cases hg : dictGet lbls "quantile".toList with
+  cases hg : dictGet lbls cs!"quantile" with
   | none => rfl
   | some q =>
     rw [hg] at hq
@@ -233,24 +234,24 @@ theorem count_not_integral (P : Params) (ls : List Line) (h : CountNotIntegral P
   intro st hh heof
   refine smp_fails P st n t s hh heof hmem (Or.inl ?_)
   have hni' : raiseIfM (notIntegral P s.value) = raiseIfM (.ok true) := by simp [hv, notIntegral, hni]
-  simp only [List.mem_cons, List.mem_singleton, List.not_mem_nil, or_false] at hsuf
+  simp only [List.mem_cons, List.not_mem_nil, or_false] at hsuf
   rcases hsuf with rfl | rfl | rfl
   · refine mem_runChecks_pre P n (some t) s (chkBucketIntegral P n s) (by simp) ?_
     have : chkBucketIntegral P n s = raiseIfM (.ok true) := by
       simp only [chkBucketIntegral, hname, hni']
-      have : (n ++ sBucket == n ++ "_bucket".toList) = true := by simp [sBucket]
+      have : (n ++ sBucket == n ++ cs!"_bucket") = true := by simp [sBucket]
       rw [if_pos this]
     rw [this]; rfl
   · refine mem_runChecks_pre P n (some t) s (chkCountIntegral P n s) (by simp) ?_
     have : chkCountIntegral P n s = raiseIfM (.ok true) := by
       simp only [chkCountIntegral, hname, hni']
-      have : (n ++ sCount == n ++ "_count".toList || n ++ sGcount == n ++ "_count".toList) = true := by simp [sCount]
+      have : (n ++ sCount == n ++ cs!"_count" || n ++ sGcount == n ++ cs!"_count") = true := by simp [sCount]
       rw [if_pos this]
     rw [this]; rfl
   · refine mem_runChecks_pre P n (some t) s (chkCountIntegral P n s) (by simp) ?_
     have : chkCountIntegral P n s = raiseIfM (.ok true) := by
       simp only [chkCountIntegral, hname, hni']
-      have : (n ++ sCount == n ++ "_gcount".toList || n ++ sGcount == n ++ "_gcount".toList) = true := by simp [sGcount]
+      have : (n ++ sCount == n ++ cs!"_gcount" || n ++ sGcount == n ++ cs!"_gcount") = true := by simp [sGcount]
       rw [if_pos this]
     rw [this]; rfl
 
@@ -270,27 +271,27 @@ theorem exemplar_ineligible (P : Params) (ls : List Line) (h : ExemplarIneligibl
     congr 1
     rw [hex, Bool.true_and, Bool.not_eq_true']
     unfold exemplarEligible at hne
-    by_cases c1 : t = "histogram".toList
+    by_cases c1 : t = cs!"histogram"
     · subst c1
-      have : endsWith "_bucket".toList s.name = false := by
-        cases hE : endsWith "_bucket".toList s.name
+      have : endsWith cs!"_bucket" s.name = false := by
+        cases hE : endsWith cs!"_bucket" s.name
         · rfl
         · exact absurd (Or.inl ⟨Or.inl rfl, hE⟩) hne
-      simp [tHistogram, tGaugeHistogram, tCounter, sBucket, this]; decide
-    · by_cases c2 : t = "gaugehistogram".toList
+      simp [tHistogram, tGaugeHistogram, tCounter, sBucket, this]
+    · by_cases c2 : t = cs!"gaugehistogram"
       · subst c2
-        have : endsWith "_bucket".toList s.name = false := by
-          cases hE : endsWith "_bucket".toList s.name
+        have : endsWith cs!"_bucket" s.name = false := by
+          cases hE : endsWith cs!"_bucket" s.name
           · rfl
           · exact absurd (Or.inl ⟨Or.inr rfl, hE⟩) hne
-        simp [tHistogram, tGaugeHistogram, tCounter, sBucket, this]; decide
-      · by_cases c3 : t = "counter".toList
+        simp [tHistogram, tGaugeHistogram, tCounter, sBucket, this]
+      · by_cases c3 : t = cs!"counter"
         · subst c3
-          have : endsWith "_total".toList s.name = false := by
-            cases hE : endsWith "_total".toList s.name
+          have : endsWith cs!"_total" s.name = false := by
+            cases hE : endsWith cs!"_total" s.name
             · rfl
             · exact absurd (Or.inr ⟨rfl, hE⟩) hne
-          simp [tHistogram, tGaugeHistogram, tCounter, sTotal, this]; decide
+          simp [tHistogram, tGaugeHistogram, tCounter, sTotal, this]
         · have e1 : (some t == some tHistogram) = false := by simpa [tHistogram] using c1
           have e2 : (some t == some tGaugeHistogram) = false := by simpa [tGaugeHistogram] using c2
           have e3 : (some t == some tCounter) = false := by simpa [tCounter] using c3
@@ -300,5 +301,246 @@ theorem exemplar_ineligible (P : Params) (ls : List Line) (h : ExemplarIneligibl
 example : isError (parseDoc "# TYPE a counter\na_total 1 # {t=\"x\"} 1\n# EOF\n") = false := by decide
 example : errOf (parseDoc "# TYPE a counter\na_total 1\na_created 1 # {t=\"x\"} 1\n# EOF\n") = some .valueError := by decide
 example : errOf (parseDoc "# TYPE a gauge\na 1 # {t=\"x\"} 1\n# EOF\n") = some .valueError := by decide
+
+/-! ## units -/
+
+/-- a non-empty unit that the family name does not end with is rejected, wherever the `# UNIT` line stands and
+whatever follows it -/
+theorem unit_not_suffix (P : Params) (ls : List Line) (h : UnitNotSuffix ls) : isError (assemble P ls) = true := by
+  obtain ⟨pre, n, u, post, rfl, hu, hsuf⟩ := h
+  apply isError_of_suffix
+  intro st
+  rw [← kwUnit_eq, finishRun_cons]
+  cases hs : stepLine P st (.metadata kwUnit n u) with
+  | error e => rfl
+  | ok st1 =>
+    simp only
+    obtain ⟨hn, _, _, h0, ha⟩ := stepLine_meta_name P st st1 kwUnit n u hs
+    exact doom_unit_suffix P n u hu hsuf post st1 hn (applyMeta_unit _ _ _ _ ha)
+
+example : isError (parseDoc "# TYPE a_seconds gauge\n# UNIT a_seconds seconds\na_seconds 1\n# EOF\n") = false := by decide
+example : errOf (parseDoc "# TYPE a_seconds gauge\n# UNIT a_seconds bytes\na_seconds 1\n# EOF\n") = some .valueError := by decide
+example : errOf (parseDoc "# UNIT a_seconds econd\n# TYPE a_seconds gauge\na_seconds 1\n# TYPE b gauge\n# EOF\n") = some .valueError := by decide
+
+theorem forbidden_of (t : Str) (h : t = cs!"info" ∨ t = cs!"stateset") : unitForbidden.contains t = true := by
+  rcases h with rfl | rfl <;> decide
+
+/-- a non-empty unit on an info or stateset family is rejected (either order of the two metadata lines) -/
+theorem unit_on_info_or_stateset (P : Params) (ls : List Line) (h : UnitOnInfoOrStateset ls) : isError (assemble P ls) = true := by
+  obtain ⟨pre, n, u, t, mid, post, hu, ht, hls⟩ := h
+  have hforb := forbidden_of t ht
+  rcases hls with rfl | rfl
+  · -- UNIT first
+    apply isError_of_suffix
+    intro st
+    rw [← kwUnit_eq, ← kwType_eq, finishRun_cons]
+    cases hs : stepLine P st (.metadata kwUnit n u) with
+    | error e => rfl
+    | ok st1 =>
+      simp only
+      obtain ⟨hn, _, _, h0, ha⟩ := stepLine_meta_name P st st1 kwUnit n u hs
+      rw [finishRun_append]
+      cases hr : run P st1 mid with
+      | error e => rfl
+      | ok st2 =>
+        simp only
+        have hseen := seen_run P (fun h => h.unit = some u) n n
+          (fun h h' kind rest hA hm => by rw [(applyMeta_keeps_set _ _ _ _ _ hm).2.2 (by rw [hA]; rfl)]; exact hA)
+          (rec_name P _ n) mid st1 st2 (Or.inl ⟨hn, applyMeta_unit _ _ _ _ ha⟩) hr
+        rcases hseen with ⟨hn2, hu2⟩ | hrec
+        · rw [finishRun_cons]
+          cases hs3 : stepLine P st2 (.metadata kwType n t) with
+          | error e => rfl
+          | ok st3 =>
+            simp only
+            obtain ⟨_, hc⟩ := stepLine_ok P st2 st3 _ hs3
+            rcases hc with ⟨h0, _⟩ | ⟨kind, cand, rest, hl, hm⟩ | ⟨_, _, _, _, hl, _⟩
+            · cases h0
+            · cases hl
+              rcases stepMeta_ok P st2 st3 _ _ _ hm with ⟨hne, _⟩ | ⟨_, hd, ha3, rfl⟩
+              · exact absurd hn2 hne
+              · refine doom_unit_forbidden P n u t hu hforb post _ ?_ ?_ (applyMeta_typ _ _ _ _ ha3)
+                · show hd.name = some n
+                  rw [applyMeta_name _ _ _ _ _ ha3]; exact hn2
+                · show hd.unit = some u
+                  rw [(applyMeta_keeps_set _ _ _ _ _ ha3).2.2 (by rw [hu2]; rfl)]; exact hu2
+            · cases hl
+        · exact meta_after_seen P n kwType t post st2 hrec
+  · -- TYPE first
+    apply isError_of_suffix
+    intro st
+    rw [← kwUnit_eq, ← kwType_eq, finishRun_cons]
+    cases hs : stepLine P st (.metadata kwType n t) with
+    | error e => rfl
+    | ok st1 =>
+      simp only
+      obtain ⟨hn, _, _, h0, ha⟩ := stepLine_meta_name P st st1 kwType n t hs
+      rw [finishRun_append]
+      cases hr : run P st1 mid with
+      | error e => rfl
+      | ok st2 =>
+        simp only
+        have hseen := seen_run P (fun h => h.typ = some t) n n
+          (fun h h' kind rest hA hm => by rw [(applyMeta_keeps_set _ _ _ _ _ hm).2.1 (by rw [hA]; rfl)]; exact hA)
+          (rec_name P _ n) mid st1 st2 (Or.inl ⟨hn, applyMeta_typ _ _ _ _ ha⟩) hr
+        rcases hseen with ⟨hn2, ht2⟩ | hrec
+        · rw [finishRun_cons]
+          cases hs3 : stepLine P st2 (.metadata kwUnit n u) with
+          | error e => rfl
+          | ok st3 =>
+            simp only
+            obtain ⟨_, hc⟩ := stepLine_ok P st2 st3 _ hs3
+            rcases hc with ⟨h0, _⟩ | ⟨kind, cand, rest, hl, hm⟩ | ⟨_, _, _, _, hl, _⟩
+            · cases h0
+            · cases hl
+              rcases stepMeta_ok P st2 st3 _ _ _ hm with ⟨hne, _⟩ | ⟨_, hd, ha3, rfl⟩
+              · exact absurd hn2 hne
+              · refine doom_unit_forbidden P n u t hu hforb post _ ?_ (applyMeta_unit _ _ _ _ ha3) ?_
+                · show hd.name = some n
+                  rw [applyMeta_name _ _ _ _ _ ha3]; exact hn2
+                · show hd.typ = some t
+                  rw [(applyMeta_keeps_set _ _ _ _ _ ha3).2.1 (by rw [ht2]; rfl)]; exact ht2
+            · cases hl
+        · exact meta_after_seen P n kwUnit u post st2 hrec
+
+example : isError (parseDoc "# TYPE a_x info\na_x_info 1\n# EOF\n") = false := by decide
+example : errOf (parseDoc "# TYPE a_x info\n# UNIT a_x x\na_x_info 1\n# EOF\n") = some .valueError := by decide
+example : errOf (parseDoc "# UNIT a_x x\n# HELP a_x h\n# TYPE a_x stateset\na_x{a_x=\"s\"} 1\n# EOF\n") = some .valueError := by decide
+
+/-! ## metadata and family structure -/
+
+/-- two metadata lines of the same kind for one family name are rejected, whatever lies between them -/
+theorem repeated_metadata (P : Params) (ls : List Line) (h : RepeatedMetadata ls) : isError (assemble P ls) = true := by
+  obtain ⟨pre, k, n, r1, mid, r2, post, rfl, _⟩ := h
+  apply isError_of_suffix
+  intro st
+  rw [finishRun_cons]
+  cases hs : stepLine P st (.metadata k n r1) with
+  | error e => rfl
+  | ok st1 =>
+    simp only
+    obtain ⟨hn, hf, _, _⟩ := stepLine_meta_name P st st1 k n r1 hs
+    rw [finishRun_append]
+    cases hr : run P st1 mid with
+    | error e => rfl
+    | ok st2 =>
+      simp only
+      have hseen := seen_run P (fun h => metaField k h = true) n n
+        (fun h h' kind rest hA hm => applyMeta_field_mono _ _ _ _ _ _ hm hA) (rec_name P _ n) mid st1 st2 (Or.inl ⟨hn, hf⟩) hr
+      rcases hseen with ⟨hn2, hf2⟩ | hrec
+      · rw [finishRun_cons]
+        cases hs3 : stepLine P st2 (.metadata k n r2) with
+        | error e => rfl
+        | ok st3 =>
+          exfalso
+          obtain ⟨_, hc⟩ := stepLine_ok P st2 st3 _ hs3
+          rcases hc with ⟨h0, _⟩ | ⟨kind, cand, rest, hl, hm⟩ | ⟨_, _, _, _, hl, _⟩
+          · cases h0
+          · cases hl
+            rcases stepMeta_ok P st2 st3 _ _ _ hm with ⟨hne, _⟩ | ⟨_, hd, ha3, _⟩
+            · exact hne hn2
+            · have := (applyMeta_sets _ _ _ _ _ ha3).1
+              rw [hf2] at this; cases this
+          · cases hl
+      · exact meta_after_seen P n k r2 post st2 hrec
+
+example : isError (parseDoc "# TYPE a counter\n# HELP a h\na_total 1\n# EOF\n") = false := by decide
+example : errOf (parseDoc "# TYPE a counter\n# HELP a h\n# TYPE a counter\na_total 1\n# EOF\n") = some .valueError := by decide
+example : errOf (parseDoc "# HELP a h\nb 1\n# HELP a h\n# EOF\n") = some .valueError := by decide
+
+/-- lines of another family between two metadata lines of one family: rejected -/
+theorem interleaved_families (P : Params) (ls : List Line) (h : InterleavedFamilies ls) : isError (assemble P ls) = true := by
+  obtain ⟨pre, k1, n, r1, mid1, k2, m, r2, mid2, k3, r3, post, rfl, hmn, _, _⟩ := h
+  apply isError_of_suffix
+  intro st
+  rw [finishRun_cons]
+  cases hs : stepLine P st (.metadata k1 n r1) with
+  | error e => rfl
+  | ok st1 =>
+    simp only
+    obtain ⟨hn, _, _, _⟩ := stepLine_meta_name P st st1 k1 n r1 hs
+    rw [finishRun_append]
+    cases hr : run P st1 mid1 with
+    | error e => rfl
+    | ok st2 =>
+      simp only
+      have hseen := seen_run P (fun _ => True) n n (fun _ _ _ _ _ _ => trivial) (rec_name P _ n) mid1 st1 st2 (Or.inl ⟨hn, trivial⟩) hr
+      rw [finishRun_cons]
+      cases hs3 : stepLine P st2 (.metadata k2 m r2) with
+      | error e => rfl
+      | ok st3 =>
+        simp only
+        have hseen3 := seen_step P (fun _ => True) n n (fun _ _ _ _ _ _ => trivial) (rec_name P _ n) st2 st3 _ hseen hs3
+        obtain ⟨hm3, _, _, _⟩ := stepLine_meta_name P st2 st3 k2 m r2 hs3
+        have hrec3 : n ∈ st3.glob.seenNames := by
+          rcases hseen3 with ⟨hn3, _⟩ | h
+          · rw [hm3] at hn3; exact absurd (Option.some.inj hn3) hmn
+          · exact h
+        rw [finishRun_append]
+        cases hr4 : run P st3 mid2 with
+        | error e => rfl
+        | ok st4 =>
+          simp only
+          exact meta_after_seen P n k3 r3 post st4 (recorded_run P n mid2 st3 st4 hrec3 hr4)
+
+example : errOf (parseDoc "# TYPE a counter\na_total 1\n# TYPE b counter\nb_total 1\n# HELP a x\n# EOF\n") = some .valueError := by decide
+
+theorem family_name_suffix (n t x : Str) (h : x ∈ familyNames n t ∨ x = n) : ∃ suf ∈ familySuffixes t, x = n ++ suf := by
+  rcases h with h | rfl
+  · rw [familyNames_eq] at h
+    unfold allowedNames at h
+    obtain ⟨suf, hs, rfl⟩ := List.mem_map.mp h
+    refine ⟨suf, ?_, rfl⟩
+    cases hl : lookupTable t typeSuffixes with
+    | none =>
+      rw [hl] at hs
+      simp only [Option.getD, List.mem_singleton] at hs
+      subst hs; exact nil_mem_familySuffixes t
+    | some l =>
+      rw [hl] at hs
+      exact mem_familySuffixes t suf (by rw [hl]; exact hs)
+  · exact ⟨[], nil_mem_familySuffixes t, by simp⟩
+
+/-- two declared families with a common sample name (name + a suffix of the declared type) are rejected -/
+theorem clashing_families (P : Params) (ls : List Line) (h : ClashingFamilies ls) : isError (assemble P ls) = true := by
+  obtain ⟨pre, n1, t1, mid, n2, t2, post, rfl, hne, x, hx1, hx2⟩ := h
+  obtain ⟨suf1, hs1, rfl⟩ := family_name_suffix n1 t1 x hx1
+  obtain ⟨suf2, hs2, hx⟩ := family_name_suffix n2 t2 _ hx2
+  apply isError_of_suffix
+  intro st
+  rw [← kwType_eq, finishRun_cons]
+  cases hs : stepLine P st (.metadata kwType n1 t1) with
+  | error e => rfl
+  | ok st1 =>
+    simp only
+    obtain ⟨hn, _, _, h0, ha⟩ := stepLine_meta_name P st st1 kwType n1 t1 hs
+    rw [finishRun_append]
+    cases hr : run P st1 mid with
+    | error e => rfl
+    | ok st2 =>
+      simp only
+      have hseen := seen_run P (fun h => h.typ = some t1) n1 (n1 ++ suf1)
+        (fun h h' kind rest hA hm => by rw [(applyMeta_keeps_set _ _ _ _ _ hm).2.1 (by rw [hA]; rfl)]; exact hA)
+        (fun h g g' samples hn hA hf => flush_records P g g' h samples n1 hn hf suf1 (by rw [hA]; exact hs1))
+        mid st1 st2 (Or.inl ⟨hn, applyMeta_typ _ _ _ _ ha⟩) hr
+      rw [finishRun_cons]
+      cases hs3 : stepLine P st2 (.metadata kwType n2 t2) with
+      | error e => rfl
+      | ok st3 =>
+        simp only
+        have hseen3 := seen_step P (fun h => h.typ = some t1) n1 (n1 ++ suf1)
+          (fun h h' kind rest hA hm => by rw [(applyMeta_keeps_set _ _ _ _ _ hm).2.1 (by rw [hA]; rfl)]; exact hA)
+          (fun h g g' samples hn hA hf => flush_records P g g' h samples n1 hn hf suf1 (by rw [hA]; exact hs1))
+          st2 st3 _ hseen hs3
+        obtain ⟨hn3, _, _, h03, ha3⟩ := stepLine_meta_name P st2 st3 kwType n2 t2 hs3
+        have hrec3 : n1 ++ suf1 ∈ st3.glob.seenNames := by
+          rcases hseen3 with ⟨hn3', _⟩ | h
+          · rw [hn3] at hn3'; exact absurd (Option.some.inj hn3').symm hne
+          · exact h
+        exact doom_clash P n2 t2 suf2 post st3 hn3 (applyMeta_typ _ _ _ _ ha3) hs2 (hx ▸ hrec3)
+
+example : isError (parseDoc "# TYPE a counter\na_total 1\n# TYPE b gauge\nb 1\n# EOF\n") = false := by decide
+example : errOf (parseDoc "# TYPE a counter\na_total 1\n# TYPE a_total gauge\na_total 1\n# EOF\n") = some .valueError := by decide
+example : errOf (parseDoc "# TYPE a_count gauge\n# TYPE b gauge\n# TYPE a summary\n# EOF\n") = some .valueError := by decide
 
 end PromVerif.Props.C15
